@@ -19,9 +19,24 @@ EXTENSIONS = [
 ]
 
 
+# explicit null defaults (distinct from "no default") at every input position, and a directive whose arguments have input-object / enum types
+SOURCE_EXTRA_SDL = """
+directive @cfg(f: Filter = {minAge: 1}, r: Role = ADMIN, opt: String = null, d: Date) on FIELD | FIELD_DEFINITION
+"""
+
+
+# (the source holds no `extend` block: it must not itself be the product of the extension code under check)
+SOURCE_NULL_DEFAULTS = [("filter: Filter)", "filter: Filter = null)"), ("  minAge: Int\n", "  minAge: Int = null\n  maybeList: [String] = null\n"), ("n: Int) on", "n: Int = null) on"),
+                        ("  at(p: Point): Int\n", "  at(p: Point): Int\n  nulls(a: String = null, f: Filter = null, l: [Int] = null, plain: Int): Int\n")]
+
+
 def make_source():
     from py_gql import build_schema
-    s = build_schema(schemas.BASE_SDL)
+    sdl = schemas.BASE_SDL
+    for old, new in SOURCE_NULL_DEFAULTS:
+        assert old in sdl, old
+        sdl = sdl.replace(old, new, 1)
+    s = build_schema(sdl + SOURCE_EXTRA_SDL)
 
     def r_me(root, ctx, info):
         return {"id": "1", "name": "n"}
@@ -195,6 +210,27 @@ def preserved(before, after, kw):
                 if af and [(x["name"], x["default"]) for x in af[0]["args"] if S6 and True] != [(x["name"], x["default"]) for x in f["args"]] and not (
                         hidden_t & {y["type"].strip("[]!") for y in f["args"]}):
                     bad.append("arguments / defaults of %s.%s changed" % (tname, f["name"]))
+            hidden_if = {x for tn, x in kw.get("hidden_input_fields", ()) if tn == tname}
+            for f in t.get("input_fields", []):
+                if f["name"] in hidden_if or f["type"].strip("[]!") in hidden_t:
+                    continue
+                af = [x for x in a.get("input_fields", []) if x["name"] == f["name"]]
+                if not af:
+                    bad.append("input field %s.%s disappeared" % (tname, f["name"]))
+                elif (af[0]["default"], af[0]["description"], af[0]["type"]) != (f["default"], f["description"], f["type"]):
+                    bad.append("input field %s.%s: %r became %r" % (tname, f["name"], (f["type"], f["default"], f["description"]),
+                                                                      (af[0]["type"], af[0]["default"], af[0]["description"])))
+        hidden_d = set(kw.get("hidden_directives", ()))
+        for dname, d in before["directives"].items():
+            if dname in hidden_d:
+                continue
+            a = after["directives"].get(dname)
+            if a is None:
+                bad.append("directive @%s disappeared" % dname)
+                continue
+            want = [x for x in d["args"] if x["type"].strip("[]!") not in hidden_t]
+            if (a["description"], a["locations"], a["args"]) != (d["description"], d["locations"], want):
+                bad.append("directive @%s: %r became %r" % (dname, (d["locations"], want), (a["locations"], a["args"])))
     return bad
 
 
